@@ -84,7 +84,11 @@ fn parse_an_b(input: &str) -> Result<FunctionalPosition, NthChildError> {
       Num(has_n) => match c {
         '+' | '-' => return Err(NthChildError::InvalidSyntax),
         '0'..='9' => {
-          num = num * 10 + (c as u8 - b'0') as i32;
+          // a number that does not fit is a syntax error, not an overflow
+          num = num
+            .checked_mul(10)
+            .and_then(|n| n.checked_add((c as u8 - b'0') as i32))
+            .ok_or(NthChildError::InvalidSyntax)?;
         }
         'n' | 'N' => {
           if has_n {
